@@ -66,6 +66,7 @@ def units(tier):
     us.append(("offsets",))
     us.append(("dst-fold",))
     us.append(("logical-unions",))
+    us.append(("containers",))
     us.append(("uuid",))
     for p in range(1, (3 if tier == "quick" else 4) + 1):
         for sc in range(0, p + 1):
@@ -335,6 +336,11 @@ def run_unit(unit, tier):
             (["null", TSU, TU, "string"], [datetime.datetime(2021, 3, 4, 5, 6, 7, 8, tzinfo=UTC), datetime.time(1, 2, 3, 4), "s"]),
             (["null", TU, TSM], [datetime.time(23, 59, 59, 999999), datetime.datetime(1969, 12, 31, 23, 59, 59, 999000, tzinfo=UTC)]),
             (["null", TU, LTU], [datetime.time(0, 0, 0, 1), datetime.datetime(2000, 1, 1, 0, 0, 0, 1)]),
+            # a timestamp branch listed before a date branch (the order that keeps a datetime's time of day): a plain date is a date
+            (["null", LTU, D], [datetime.date(2020, 2, 29), datetime.date(1, 1, 1), datetime.date(9999, 12, 31), datetime.datetime(2000, 1, 1, 12, 0, 0, 1)]),
+            (["null", S("long", "local-timestamp-millis"), D], [datetime.date(1969, 12, 31), datetime.datetime(2000, 1, 1, 12, 0, 0, 1000)]),
+            (["null", TSU, D], [datetime.date(1970, 1, 1), datetime.datetime(2021, 3, 4, 5, 6, 7, 8, tzinfo=UTC)]),
+            ([TSM, D, TM], [datetime.date(2038, 1, 19), datetime.time(1, 2, 3), datetime.datetime(2021, 3, 4, 5, 6, 7, 8000, tzinfo=UTC)]),
             ({"type": "record", "name": "LU", "fields": [{"name": "a", "type": ["null", D, TM]}, {"name": "b", "type": {"type": "array", "items": [TSU, TU]}},
                                                         {"name": "c", "type": {"type": "map", "values": ["null", TM, D]}}]},
              [{"a": datetime.time(1, 1, 1), "b": [datetime.time(2, 2, 2, 2), datetime.datetime(2020, 1, 1, tzinfo=UTC)], "c": {"k": datetime.date(2000, 1, 1), "l": datetime.time(3, 3, 3)}}]),
@@ -364,6 +370,60 @@ def run_unit(unit, tier):
                         if type(got) is not type(v) or got != v:
                             res.add(Violation("c16.union", f"logical-union-wrong-converter:{how}", f"{v!r} written under {sch} read back ({how}, reader_schema={'given' if rs is not None else 'none'}) as {got!r}", info))
         res.sample({"type": "unions of logical types over one base type", "cases": len(cases)})
+    elif kind == "containers":
+        # every logical type as map value, array item, record field, nested two deep and by name: the conversion applies at
+        # every position, read with no reader schema and with an identical one, schemaless and from a container
+        import copy as _copy
+
+        FD = {"type": "fixed", "name": "FD4", "size": 4, "logicalType": "decimal", "precision": 9, "scale": 2}
+        samples = [
+            (S("int", "date"), [datetime.date(1, 1, 1), datetime.date(1969, 12, 31), datetime.date(2020, 2, 29), datetime.date(9999, 12, 31)]),
+            (S("int", "time-millis"), [datetime.time(0, 0), datetime.time(23, 59, 59, 999000)]),
+            (S("long", "time-micros"), [datetime.time(0, 0, 0, 1), datetime.time(23, 59, 59, 999999)]),
+            (S("long", "timestamp-millis"), [datetime.datetime(1969, 12, 31, 23, 59, 59, 999000, tzinfo=UTC), datetime.datetime(2021, 3, 4, 5, 6, 7, 8000, tzinfo=UTC)]),
+            (S("long", "timestamp-micros"), [datetime.datetime(1, 1, 1, tzinfo=UTC), datetime.datetime(2021, 3, 4, 5, 6, 7, 8, tzinfo=UTC)]),
+            (S("long", "local-timestamp-millis"), [datetime.datetime(1969, 12, 31, 23, 59, 59, 999000), datetime.datetime(2021, 3, 4, 5, 6, 7, 8000)]),
+            (S("long", "local-timestamp-micros"), [datetime.datetime(9999, 12, 31, 23, 59, 59, 999999), datetime.datetime(2021, 3, 4, 5, 6, 7, 8)]),
+            (S("string", "uuid"), [uuid.UUID(int=0), uuid.UUID("12345678-1234-4234-9234-123456789abc")]),
+            ({"type": "bytes", "logicalType": "decimal", "precision": 9, "scale": 2}, [decimal.Decimal("-1234567.89"), decimal.Decimal("0.00"), decimal.Decimal("0.01")]),
+            (FD, [decimal.Decimal("-1234567.89"), decimal.Decimal("1.00")]),
+        ]
+        for leaf, vals in samples:
+            shapes = [
+                ("map", {"type": "map", "values": leaf}, lambda v: {"k": v, "": v}),
+                ("array", {"type": "array", "items": leaf}, lambda v: [v, v]),
+                ("field", {"type": "record", "name": "Rf", "fields": [{"name": "f", "type": leaf}]}, lambda v: {"f": v}),
+                ("map-of-arrays", {"type": "map", "values": {"type": "array", "items": leaf}}, lambda v: {"k": [v], "l": []}),
+                ("array-of-maps", {"type": "array", "items": {"type": "map", "values": leaf}}, lambda v: [{"k": v}, {}]),
+                ("map-of-records", {"type": "map", "values": {"type": "record", "name": "Rm", "fields": [{"name": "f", "type": leaf}]}}, lambda v: {"k": {"f": v}}),
+                ("nullable-map-values", {"type": "map", "values": ["null", leaf]}, lambda v: {"k": v, "n": None}),
+            ]
+            if leaf.get("type") == "fixed":
+                shapes.append(("by-name", {"type": "record", "name": "Rn", "fields": [{"name": "first", "type": leaf}, {"name": "m", "type": {"type": "map", "values": leaf["name"]}},
+                                                                                    {"name": "a", "type": {"type": "array", "items": leaf["name"]}}]}, lambda v: {"first": v, "m": {"k": v}, "a": [v]}))
+            for shape, sch, mk in shapes:
+                for v in vals:
+                    d = mk(v)
+                    for rs in (None, _copy.deepcopy(sch)):
+                        res.evals += 1
+                        ctx.n += 1
+                        info = {"schema": sch, "value": d, "reader_schema": rs}
+                        try:
+                            fo = io.BytesIO()
+                            fa.schemaless_writer(fo, _copy.deepcopy(sch), _copy.deepcopy(d))
+                            a = fa.schemaless_reader(io.BytesIO(fo.getvalue()), _copy.deepcopy(sch), _copy.deepcopy(rs)) if rs is not None else fa.schemaless_reader(io.BytesIO(fo.getvalue()), _copy.deepcopy(sch))
+                            fo = io.BytesIO()
+                            fa.writer(fo, _copy.deepcopy(sch), [_copy.deepcopy(d)], sync_marker=b"L" * 16)
+                            fo.seek(0)
+                            b = list(fa.reader(fo, reader_schema=_copy.deepcopy(rs)))[0]
+                        except Exception as e:
+                            res.add(Violation("c16.container-position", f"logical-in-{shape}-raised:{type(e).__name__}", f"{type(e).__name__}: {e} | {short(info, 400)}", info))
+                            continue
+                        for got, how in ((a, "schemaless"), (b, "container")):
+                            if repr(got) != repr(d) or got != d:
+                                res.add(Violation("c16.container-position", f"logical-in-{shape}-not-converted:{leaf['logicalType']}",
+                                                  f"{d!r} written under {sch} read back ({how}, reader_schema={'given' if rs is not None else 'none'}) as {got!r}", info))
+        res.sample({"type": "logical types inside containers", "leaves": len(samples), "shapes": 8})
     elif kind == "uuid":
         raw = S("string", "uuid")
         vals = [uuid.UUID(int=0), uuid.UUID(int=(1 << 128) - 1)] + [uuid.UUID(int=1 << b) for b in range(128)]
